@@ -85,6 +85,46 @@ NEEDS = {
               "whole-pool suspend followed immediately by resume: suspend returns before the workers sleep, resume notifies nobody, the workers then sleep forever"),
     "C20-2": ("poll_multithreaded's first drain loop decrements the global activity count before invoking the callback",
               "two workers polling, a completion taken over by the other worker, a continuation still running when pika::wait() looks at the count"),
+    "C01-3": ("thread_data::restore_state(new, state_ex, old) compare-exchanges against the freshly loaded word instead of the caller's snapshot",
+              "two wakers racing on the same suspended task (both read 'suspended'); the slower one then forces active -> pending and the task is queued and run twice"),
+    "C02-3": ("the scheduling loop's restore_state expects the restart state recorded at activation (old_state.state_ex) instead of ignoring it",
+              "a task that was resumed with a restart state other than 'signaled' (interrupt/abort), handled it, and blocks again: its state word stays 'active' forever"),
+    "C03-3": ("when_all_vector::finish reads the error/stopped flag before decrementing the completion counter",
+              "one failing and one succeeding input completing concurrently; the value child reads the flag, the sibling runs its whole error path, the value child then is last and signals set_value"),
+    "C04-3": ("hand-written move assignment of async_rw_mutex does not take over prev_access",
+              "a = std::move(b) where a's last request was a read and b's last request a still outstanding readwrite, then a.read() (outside the property's quantification: the checks never move-assign the mutex object)"),
+    "C05-3": ("local_priority_queue_scheduler::create_thread increments the global activity count after the task became visible",
+              "a task that creates a child and is delayed right after the child became visible; the child finishes first and the count drops to 0 while wait()/stop() look at it"),
+    "C06-3": ("recursive_mutex_impl::unlock stores the recursion count non-atomically after releasing the inner lock",
+              "the next owner acquiring between the release and the late store(0) (a slow inner unlock makes it likely), then re-entering"),
+    "C07-3": ("detail::condition_variable::wait_until enqueues timed waiters with push_front",
+              "a timed wait that starts while another waiter is queued and then times out: it erases the other waiter's queue entry"),
+    "C08-3": ("sliding_semaphore::signal no longer keeps the lower bound monotone",
+              "signals arriving in decreasing order, a wait / try_wait evaluated after the stale one"),
+    "C09-3": ("barrier arrival claims a half-full node with an unconditional exchange instead of a CAS",
+              "at least three participants, two of them seeing the same node at half_step within a few instructions (tight multi-phase loops)"),
+    "C10-3": ("the scheduling loop converts other workers' staged tasks even when stealing is disabled",
+              "a static-priority pool, the hinted worker busy, a neighbour idle for more than max_idle_loop_count/2 iterations"),
+    "C11-3": ("contiguous_index_queue::pop_right computes the returned index once, before the CAS loop",
+              "two thieves popping right from the same queue at the same moment (the loser of the CAS returns the stale index)"),
+    "C12-3": ("with guard pages the guard is placed at the user-visible stack pointer: the lowest page of every task stack is inaccessible",
+              "pika.stacks.use_guard_pages=1 and a task using (or a check measuring) the last page of its configured stack size"),
+    "C13-3": ("interruption_point() no longer tests whether interruption is enabled",
+              "interrupt() recorded while interruption is enabled, the target then enters a disable_interruption scope and reaches an interruption point inside it"),
+    "C14-3": ("stop_source move assignment skips remove_source_count when both sides share a state",
+              "two sources sharing a state, one move-assigned onto the other, all sources destroyed without a stop request, then stop_possible() on a token"),
+    "C15-3": ("a worker looks up its affinity mask with the pool-local instead of the global index",
+              "a second thread pool and a binding mode other than none: only the OS-reported affinity of the worker threads shows it"),
+    "C16-3": ("the abbreviation matching of pika.scheduler tests the longer names first",
+              "the resolved value 'local' or 'static' from any source (they are prefixes of longer policy names)"),
+    "C17-3": ("moodycamel ConcurrentQueue recycles an inactive producer slot with load+store instead of a CAS",
+              "a producer thread that has exited and at least two new threads whose first push happens within a few instructions (NOT caught by the checks, see DESIGN.md)"),
+    "C18-3": ("any_receiver::set_value moves from its arguments instead of forwarding them",
+              "a wrapped sender that completes with an l-value reference to a non-trivially movable object"),
+    "C19-3": ("staged tasks are never taken over from other workers (the idle-loop threshold can never be reached)",
+              "all workers of an elastic pool asleep, tasks submitted, only some workers resumed, then a pool suspend that waits for the drain (NOT caught by the checks, see DESIGN.md)"),
+    "C20-3": ("can_run_singlethreaded tests the wrong completion-mode bit",
+              "a dedicated MPI polling pool with request_inline set and completion_inline clear while several threads post requests (NOT caught by the checks, see DESIGN.md)"),
     "C06-2": ("mutex::try_lock tests the owner before taking the internal spinlock",
               "two simultaneous acquisitions of a free mutex, at least one of them try_lock"),
 }
